@@ -20,6 +20,8 @@ within any budget measured here.
 """
 import itertools
 
+from props import ecc_c
+
 from vlib.env import Harness, Skip
 
 NB = {'P-192': 24, 'P-224': 28, 'P-256': 32, 'P-384': 48, 'P-521': 66, 'Curve25519': 32, 'Curve448': 56, 'Ed25519': 32, 'Ed448': 57}
@@ -489,7 +491,7 @@ HARNESSES = dict(dh_roles=Harness('dh_roles', run_dh_roles, max_paths=4000, budg
                  dh_refusals=Harness('dh_refusals', run_dh_refusals),
                  point_ops=Harness('point_ops', run_point_ops, max_paths=4000),
                  f25519=Harness('f25519', run_f25519), cswap448=Harness('cswap448', run_cswap448),
-                 bignum=Harness('bignum', run_bignum))
+                 bignum=Harness('bignum', run_bignum), ec_scalar_mem=ecc_c.HARNESS)
 
 
 def shapes(tier):
@@ -516,6 +518,9 @@ def shapes(tier):
             if fn in ('add_mod', 'sub_mod') and nw > 2:
                 continue            # z3 does not finish the 3-word modular add/sub within the budget (measured): outside
             jobs.append(('bignum', dict(fn=fn, nw=nw)))
+    # real C scalar multiplication on concrete operands (LLSYM as interpreter): scalars up to and beyond the order,
+    # generator fast path and generic path, against the textbook multiple
+    jobs += ecc_c.ec_scalar_shapes(tier)
     return jobs
 
 
